@@ -36,10 +36,10 @@ pub fn child_main(spec: &str) {
     let gs = gen_system(&mut rng, &mut ctx, &cfg, "");
     let sys = gs.sys;
     let workdir = std::path::PathBuf::from(std::env::var("C15_WORKDIR").unwrap_or_else(|_| "/tmp".into()));
-    let mcfg = McCfg { persona, individually: false, check_constraints: false, k_max: 3, solver_seed: 7, diversify: 0, core_mode: "minimal" };
+    let mcfg = McCfg { persona, individually: job == "bmc-ind", check_constraints: false, k_max: 3, solver_seed: 7, diversify: 0, core_mode: "minimal" };
     let tag = format!("c15child_{}", std::process::id());
     let verdict = match job {
-        "bmc" => run_bmc_no_server(&mut ctx, &sys, &mcfg, &workdir, &tag),
+        "bmc" | "bmc-ind" => run_bmc_no_server(&mut ctx, &sys, &mcfg, &workdir, &tag),
         "pdr" => run_pdr_no_server(&mut ctx, &sys, &mcfg, &workdir, &tag),
         _ => direct_session(&mut ctx, persona),
     };
@@ -222,6 +222,10 @@ fn run_child(sh: &Shard, spec: &str, fault: Option<(&str, u64)>, counter: &std::
     }
 }
 
+fn counter_path(sh: &Shard) -> std::path::PathBuf {
+    sh.workdir.join("c15.counter")
+}
+
 impl Check for C15 {
     fn id(&self) -> &'static str {
         "C15"
@@ -236,7 +240,7 @@ impl Check for C15 {
         "fault_runs"
     }
     fn rule(&self) -> String {
-        format!("jobs = BMC (k=3), PDR and a direct SolverContext session (declare/assert/check-sat/get-value/push/pop/check-sat-assuming/get-unsat-assumptions/restart) on generated systems, each under one of the four solver profiles; a fault-free run counts the N response-bearing points of the conversation (check-sat, check-sat-assuming, get-value, get-unsat-assumptions; counted across restart() through a shared counter file); then for EVERY position n < N and EVERY fault kind of {:?} the job is re-run in a child process with the fault armed in the reference solver. Oracle: the call must return an error (or Unknown) - never Success/Fail, never a panic; for error replies the returned text must contain the injected message as one contiguous piece; the child must return within 1000 x fault-free time (clamped to 12..60 s), otherwise /proc is inspected: solver process gone or cpu burning = hang (violation), solver alive and idle = inconclusive. distinct_nontrivial = distinct (job, position, kind) triples executed.", FAULT_KINDS)
+        format!("jobs = BMC (k=3; all bad states at once, or one at a time), PDR (jobs on profiles with unsat cores are chosen such that the run really asks for a core) and a direct SolverContext session (declare/assert/check-sat/get-value/push/pop/check-sat-assuming/get-unsat-assumptions/restart) on generated systems, each under one of the four solver profiles; a fault-free run counts the N response-bearing points of the conversation (check-sat, check-sat-assuming, get-value, get-unsat-assumptions; counted across restart() through a shared counter file); then for EVERY position n < N and EVERY fault kind of {:?} the job is re-run in a child process with the fault armed in the reference solver. Oracle: the call must return an error (or Unknown) - never Success/Fail, never a panic; for error replies the returned text must contain the injected message as one contiguous piece; the child must return within 1000 x fault-free time (clamped to 12..60 s), otherwise /proc is inspected: solver process gone or cpu burning = hang (violation), solver alive and idle = inconclusive. distinct_nontrivial = distinct (job, position, kind) triples executed.", FAULT_KINDS)
     }
     fn assumptions(&self) -> Vec<String> {
         vec!["every injected fault hits a response the job really waits for (positions are enumerated from a fault-free run of the same deterministic job)".into()]
@@ -259,21 +263,28 @@ impl Check for C15 {
     fn run_case(&self, sh: &mut Shard, case: &CaseId) {
         let mut rng = Rng::new(sh.case_seed());
         ensure_z3_server(&sh.workdir.clone());
-        let job = ["bmc", "pdr", "direct", "pdr"][(case.n % 4) as usize];
-        let persona = PERSONAS[((case.n / 4 + case.n) % 4) as usize];
-        let counter = sh.workdir.join("c15.counter");
+        let job = ["bmc", "pdr", "direct", "pdr", "bmc-ind", "pdr"][(case.n % 6) as usize];
+        let persona = PERSONAS[((case.n / 6 + case.n) % 4) as usize];
+        let kinds_file = std::path::PathBuf::from(format!("{}.kinds", counter_path(sh).display()));
+        let counter = counter_path(sh);
         // find a job with a manageable conversation
         let mut chosen = None;
         for _ in 0..20 {
             let spec = format!("{job}:{}:{persona}", rng.next() % 1_000_000);
+            let _ = std::fs::remove_file(&kinds_file);
             let base = run_child(sh, &spec, None, &counter, Duration::from_secs(60));
             let n: u64 = std::fs::read_to_string(&counter).ok().and_then(|s| s.trim().parse().ok()).unwrap_or(0);
-            if base.hang.is_none() && (base.verdict == "success" || base.verdict == "fail") && n >= 2 && n <= sh.tier.pick(30, 80) {
-                chosen = Some((spec, base, n));
+            let kinds: Vec<String> = std::fs::read_to_string(&kinds_file).unwrap_or_default().lines().map(|l| l.to_string()).collect();
+            // a PDR job is only interesting for this check if it generalises through unsat cores where the profile has them,
+            // an individual-mode BMC job if several bad states are checked after one another
+            let wants_core = job == "pdr" && persona != "yices-smt2";
+            let has_core = kinds.iter().any(|k| k == "get-unsat-assumptions");
+            if base.hang.is_none() && (base.verdict == "success" || base.verdict == "fail") && n >= 2 && n <= sh.tier.pick(40, 80) && kinds.len() as u64 == n && (!wants_core || has_core) {
+                chosen = Some((spec, base, n, kinds));
                 break;
             }
         }
-        let Some((spec, base, npoints)) = chosen else {
+        let Some((spec, base, npoints, kinds)) = chosen else {
             sh.count("jobs_without_suitable_conversation", 1);
             return;
         };
@@ -285,6 +296,7 @@ impl Check for C15 {
             for kind in FAULT_KINDS {
                 let o = run_child(sh, &spec, Some((kind, n)), &counter, budget);
                 sh.count("fault_runs", 1);
+                sh.hist("fault_runs_by_job_and_point", &format!("{job} @ {}", kinds[n as usize]));
                 sh.distinct(util::mix(&[util::hash_str(&spec), n, util::hash_str(kind)]));
                 sh.hist("outcomes", &format!("{kind} -> {}", o.verdict));
                 let ctxt = format!("job `{spec}` ({} response points, fault-free verdict {}), fault `{kind}` at response point {n}", npoints, base.verdict);
@@ -332,6 +344,9 @@ impl Check for C15 {
     fn finalize(&self, m: &mut Merged, tier: Tier) {
         m.floor("fault runs", m.c("fault_runs"), tier.pick(300, 8_000));
         m.floor("jobs", m.c("jobs"), tier.pick(6, 60));
+        for (what, floor) in [("pdr @ get-unsat-assumptions", tier.pick(28, 280)), ("pdr @ check", tier.pick(100, 1000)), ("bmc-ind @ check", tier.pick(28, 280)), ("bmc @ get-value", tier.pick(28, 280)), ("direct @ get-unsat-assumptions", 14)] {
+            m.floor(&format!("fault runs at response points of kind `{what}`"), m.h("fault_runs_by_job_and_point", what), floor);
+        }
         m.extra.insert("exhaustive_over_positions_and_kinds_per_job".into(), json!(true));
     }
 }
